@@ -51,6 +51,10 @@ pub struct RunCtx {
     /// engine F only: (middleware id, hook r|e|d, action) -> action the hook dispatches through the
     /// dispatcher it was handed (`mwd` scenario lines)
     pub mw_dispatch: Mutex<HashMap<(u32, char, Aid), Aid>>,
+    /// engine F only: (subscriber id, action) -> subscriber id it unsubscribes from inside its
+    /// on_notify (`cbun` scenario lines), and the function that performs the unsubscribe
+    pub cb_unsub: Mutex<HashMap<(u32, Aid), u32>>,
+    pub unsub_fn: Mutex<Option<Arc<dyn Fn(u32) + Send + Sync>>>,
 }
 
 impl RunCtx {
@@ -62,6 +66,8 @@ impl RunCtx {
             gate: Mutex::new(None),
             read_state_in_callbacks: false,
             mw_dispatch: Mutex::new(HashMap::new()),
+            cb_unsub: Mutex::new(HashMap::new()),
+            unsub_fn: Mutex::new(None),
         })
     }
 
@@ -81,6 +87,17 @@ impl RunCtx {
         let g = self.gate.lock().unwrap().clone();
         if let Some(g) = g {
             g(kind, id, a);
+        }
+    }
+
+    /// `cbun`: the subscriber unsubscribes another one (or itself) from inside its callback
+    pub fn callback_unsubscribe(&self, sid: u32, a: Aid) {
+        let target = self.cb_unsub.lock().unwrap().get(&(sid, a)).copied();
+        if let Some(t) = target {
+            let f = self.unsub_fn.lock().unwrap().clone();
+            if let Some(f) = f {
+                f(t);
+            }
         }
     }
 
@@ -329,6 +346,7 @@ impl Subscriber<State, Aid> for SSubscriber {
             }
         }
         self.ctx.log(format!("NOTIFY {} {} {}", self.sid, state_text(state), action));
+        self.ctx.callback_unsubscribe(self.sid, *action);
     }
 
     fn on_unsubscribe(&self) {
